@@ -161,11 +161,8 @@ LawsHoldOnSpec == done =>
        /\ GitFailed(h, [I EXCEPT !.ok = FALSE]) = SeqRange(GitLawNames)
        /\ \A o \in {nox, swp, tgm} : (FastFailed(h, o) = {}) <=> FastRoundTrip(h, o)
 
-\* anti-vacuity witnesses: TLC must reach these (checked as invariants that must be VIOLATED)
+\* anti-vacuity witnesses for the antecedents above: TLC must reach these (invariants that must be VIOLATED); the
+\* other classes (renames, kind changes, deletions, symlinks, ...) are counted on the histories handed to the harness
 WitnessEmptyDir == ~(done /\ SomeEmptyDir /\ SomeExec /\ h.tags # {})
 WitnessAsymMerge == ~(done /\ \E r \in RevsOf(h) : Len(h.P[r]) = 2 /\ h.T[h.P[r][1]] # h.T[h.P[r][2]])
-WitnessMergeRename == ~(done /\ \E r \in RevsOf(h) : Len(h.P[r]) = 2 /\ \E e \in h.T[r] : \E f \in h.T[h.P[r][1]] : e.o = f.o /\ e.p # f.p)
-WitnessKindChange == ~(done /\ \E r \in RevsOf(h) : h.P[r] # <<>> /\ \E e \in h.T[r] : \E f \in h.T[h.P[r][1]] : e.o = f.o /\ e.k # f.k)
-WitnessNestedEmpty == ~(done /\ \E r \in RevsOf(h) : \E e \in EmptyDirsOf(h.T[r]) : Len(e.p) = 2)
-WitnessTag == ~(done /\ h.tags # {} /\ NRevs(h) >= 2)
 =============================================================================
